@@ -263,6 +263,38 @@ def loop_programs():
 FEATURES_DB += loop_programs()
 
 
+def setop_hidden_programs():
+    """Set operations whose TOP carries columns the compiler added for itself (ROW_NUMBER of a take inside a group,
+    a computed sort key, a window value only used by a filter) next to user columns, x bottoms with explicitly
+    selected columns of the same or another width x what follows (nothing, a select that prunes, a filter)."""
+    tops = {"group_take": "from t1 | select {k, a} | group k (take 2)", "group_sort_take": "from t1 | select {k, a} | group k (sort a | take 1)",
+            "sort_expr_take": "from t1 | select {k, a} | sort {a + 1} | take 3", "window_filter": "from t1 | select {k, a} | derive {r = rank a} | filter r > 1 | select {k, a}",
+            "distinct": "from t1 | select {k, a} | group {k, a} (take 1)", "plain": "from t1 | select {k, a}", "take_filter": "from t1 | select {k, a} | take 4 | filter a > 0"}
+    adds = {"none": ("", 2), "derive": (" | derive {w = 1}", 3), "derive2": (" | derive {w = a + 1, v = w * 2}", 4), "derive_used": (" | derive {w = a + 1} | derive {v = w * 2} | select {k, a, v}", 3)}
+    bottoms = {2: ["from t2 | select {k, c}", "from t2 | select {x = k, y = c} | sort x | take 2"],
+               3: ["from t2 | select {k, c, id}", "from t2 | select {k, c} | derive {z = c + 1}"],
+               4: ["from t2 | select {k, c, id, a}"]}
+    afters = ["", " | select {k}", " | filter k > 0", " | sort k | take 2", " | group k (aggregate {n = count this})"]
+    out = []
+    for tn, top in tops.items():
+        for an, (add, width) in adds.items():
+            for op in ("append", "remove", "intersect"):
+                for bw in (width,):          # sides of equal width: a mismatch would be the user's own error
+                    for bi, bot in enumerate(bottoms[bw]):
+                        for ai, aft in enumerate(afters):
+                            if op != "append" and (ai > 1 or bi):
+                                continue
+                            if bw != width and ai not in (0, 1):
+                                continue
+                            src = "%s%s | %s (%s)%s" % (top, add, op, bot, aft)
+                            out.append(src)
+                            LET_READER_LABELS[src] = "setops top:hidden_%s add:%s bottom:w%d_%d op:%s after:%d" % (tn, an, bw, bi, op, ai)
+    return out
+
+
+FEATURES_DB += setop_hidden_programs()
+
+
 def _shard(seed, shard, n_rel, corpus_srcs):
     rng = core.shard_rng(seed, "C07", shard)
     w = core.Worker()
